@@ -55,7 +55,7 @@ impl<'l, Data> EventLoop<'l, Data> {
 //@ rw R10 1 <<self.handle.inner.sources.borrow_mut()>> => <<sources>>
 //@ rw R10 * <<&mut self.handle.inner.poll.borrow_mut()>> => <<&mut *poll>>
 //@ rw R10 * <<= self.handle.inner.poll.borrow_mut();>> => <<= &mut *poll;>>
-//@ rw R10 * <<self .handle .inner .sources_with_additional_lifecycle_events .borrow_mut()>> => <<*extra>>
+//@ rw R10 * <<self .handle .inner .sources_with_additional_lifecycle_events .borrow_mut()>> => <<(*extra)>>
 //@ closure <<|entry| entry.source.clone()>>
 -> (c: Option<Rc<dyn EventDispatcher<Data> + 'l>>) ensures c == entry.disp()
 //@ closure <<|entry| entry.source.is_none()>>
@@ -89,6 +89,10 @@ fn dispatch_events_per_event_body(&mut self, sources_at_lookup: &SourceList<'l, 
             // Remove, or the slot was reused meanwhile) it has been asked to unregister before the loop lets go of it
             &&& (r is Ok && (final(sources).lookup(event.token.inner.forget()) is None || final(sources)@[event.token.inner.forget().sid()].vacant()))
                     ==> d.w_unregister_called(RegistrationToken::of(event.token.inner.forget()))
+            // C14/C15: ... and its lifecycle entry does not outlive it: the dispatcher confirmed the unregistration, or the entry
+            // has been dropped here (defect F11: a FAILING unregister used to leave it behind => `unreachable!()` next dispatch)
+            &&& (r is Ok && (final(sources).lookup(event.token.inner.forget()) is None || final(sources)@[event.token.inner.forget().sid()].vacant()))
+                    ==> (!final(extra)@.contains(RegistrationToken::of(event.token.inner.forget())) || d.w_unregistered(RegistrationToken::of(event.token.inner.forget())) || d.w_deferred())
         }),
 //@ entry
     // ghost state: has the loop-global deferred-action cell been reset for this event, and what was in it
@@ -131,7 +135,7 @@ fn dispatch_events_per_event_body(&mut self, sources_at_lookup: &SourceList<'l, 
 //@ rw R10 1 <<self.handle.inner.sources.borrow_mut()>> => <<sources>>
 //@ rw R10 * <<&mut self.handle.inner.poll.borrow_mut()>> => <<&mut *poll>>
 //@ rw R10 * <<= self.handle.inner.poll.borrow_mut();>> => <<= &mut *poll;>>
-//@ rw R10 * <<self .handle .inner .sources_with_additional_lifecycle_events .borrow_mut()>> => <<*extra>>
+//@ rw R10 * <<self .handle .inner .sources_with_additional_lifecycle_events .borrow_mut()>> => <<(*extra)>>
 //@ closure <<|entry| entry.source.clone()>>
 -> (c: Option<Rc<dyn EventDispatcher<Data> + 'l>>) ensures c == entry.disp()
 //@ closure <<|entry| entry.source.is_none()>>
